@@ -16,19 +16,19 @@ var regexpErrKey = regexp.MustCompile(`E:([A-Za-z0-9_.\-]+)`)
 
 // outcome is what one subscriber observed, reduced to what the statement talks about.
 type outcome struct {
-	Key         string   `json:"key"`
-	Tuple       string   `json:"tuple"`
-	Cancelled   bool     `json:"cancelled,omitempty"`
-	CancelPhase string   `json:"cancel_phase,omitempty"`
-	Faulted     bool     `json:"faulted,omitempty"`
-	Returned    bool     `json:"returned"`
-	SubErr      string   `json:"subscribe_err_class"`
-	SubErrText  string   `json:"subscribe_err,omitempty"`
-	CtxLive     bool     `json:"own_ctx_live_at_return"`
-	Events      []cevent `json:"events,omitempty"`
+	Key         string    `json:"key"`
+	Tuple       string    `json:"tuple"`
+	Cancelled   bool      `json:"cancelled,omitempty"`
+	CancelPhase string    `json:"cancel_phase,omitempty"`
+	Faulted     bool      `json:"faulted,omitempty"`
+	Returned    bool      `json:"returned"`
+	SubErr      string    `json:"subscribe_err_class"`
+	SubErrText  string    `json:"subscribe_err,omitempty"`
+	CtxLive     bool      `json:"own_ctx_live_at_return"`
+	Events      []cevent  `json:"events,omitempty"`
 	ServerSent  []sentMsg `json:"server_sent,omitempty"`
-	ServerConn  int      `json:"server_conn,omitempty"`
-	HookHits    int      `json:"hook_hits,omitempty"`
+	ServerConn  int       `json:"server_conn,omitempty"`
+	HookHits    int       `json:"hook_hits,omitempty"`
 	tup         *tuple
 }
 
@@ -50,19 +50,20 @@ type deviation struct {
 }
 
 type runReport struct {
-	Tag          string
-	Outcomes     []outcome
-	Devs         []deviation
-	Conns        []connInfo
-	Cancels      map[string]int
-	Inconclusive string
-	Problems     []string
-	HookHits     int64
-	Delivered    int
-	Shared       int // server connections that carried >= 2 subscriptions
-	MaxShare     int
-	Tuples       int
-	ClosedAfterLast int // connections observed closed by the client after their last subscription ended
+	Tag               string
+	Outcomes          []outcome
+	Devs              []deviation
+	Conns             []connInfo
+	Cancels           map[string]int
+	Inconclusive      string
+	Problems          []string
+	HookHits          int64
+	Delivered         int
+	Shared            int // server connections that carried >= 2 subscriptions
+	MaxShare          int
+	Tuples            int
+	ClosedAfterLast   int // connections observed closed by the client after their last subscription ended
+	WSClosedAfterLast int
 }
 
 // judge evaluates the run against the statement. It must be called after the scenario's own
@@ -342,14 +343,21 @@ func (e *env) finish(rep *runReport) {
 			e.wait("Subscribe of "+s.key+" to return after cleanup", s.isReturned)
 		}
 	}
-	ok := e.wait("quiescence: client Stats() and upstream open connections back to 0", func() bool {
-		st := e.cl.Stats()
-		return st.WSConns == 0 && st.SSEConns == 0 && e.up.openCount() == 0
-	})
+	ok := false
+	if !e.failed() {
+		ok = e.note.until(quiescenceWatchdog, func() bool {
+			st := e.cl.Stats()
+			return st.WSConns == 0 && st.SSEConns == 0 && e.up.openCount() == 0
+		})
+		if !ok {
+			e.fail("watchdog", "quiescence: client Stats() and upstream open connections back to 0")
+		}
+	}
 	if ok {
 		for _, ci := range e.up.snapshot() {
 			if ci.Acked && strings.HasPrefix(ci.ClosedBy, "client-close") {
 				rep.ClosedAfterLast++
+				rep.WSClosedAfterLast++
 			}
 			if ci.Kind == "sse" && (ci.ClosedBy == "client-closed" || ci.ClosedBy == "server-terminal") {
 				rep.ClosedAfterLast++
@@ -377,6 +385,7 @@ func emit(res *fw.Result, kind string, control, exp *runReport, param any) {
 		res.Count("conns_opened", int64(len(r.Conns)))
 		res.Count("shared_conns", int64(r.Shared))
 		res.Count("conns_closed_after_last_sub", int64(r.ClosedAfterLast))
+		res.Count("ws_conns_closed_after_last_sub", int64(r.WSClosedAfterLast))
 		res.Count("hook_ws.subscribe.beforeWrite", r.HookHits)
 		for ph, n := range r.Cancels {
 			res.Count("cancel_"+ph, int64(n))
